@@ -29,6 +29,8 @@ import (
 
 const verifC10WaitTimeout = 60 * time.Second
 
+const verifC10LevelDBDelay = 1 // seconds; production 2. 0 would make the batch timer spin, and SerialDB.Get can miss a key whose batch has been swapped out but not yet queued for writing
+
 // Known-finding class: commitCheckpoint removes every hash it writes from ALL entries of the checkpoint
 // hashes holder, trusting the snapshot database it wrote to. When SnapshotState later opens a new
 // database for a root S, the holder entries of the commits after S are kept (RemoveCommitted(S)) - minus
@@ -84,18 +86,19 @@ func verifC10Run(rt *rapid.T, c *kit.Case, snapshotDir func() string) {
 		MaxTrieLevelInMem: uint(rapid.IntRange(1, 6).Draw(rt, "maxTrieLevelInMem")),
 		MaxSnapshots:      2,
 	}
-	if rapid.IntRange(0, 4).Draw(rt, "smallCheckpointHolder") == 0 {
+	smallHolder := rapid.IntRange(0, 4).Draw(rt, "smallCheckpointHolder") == 0
+	if smallHolder {
 		// Commit forces a checkpoint of the new root when the holder is full
 		cfg.CheckpointMaxSize = uint64(rapid.IntRange(300, 6000).Draw(rt, "checkpointHolderBytes"))
 		c.Class("small-checkpoint-holder")
 	}
 	if snapshotDir != nil && rapid.IntRange(0, 29).Draw(rt, "levelDBSnapshots") == 0 {
-		// BatchDelaySeconds must not be 0 for LevelDB: storage/leveldb.DB.Put adds to the batch outside the
-		// lock under which batchTimeoutHandle writes the batch and resets it, so a Put that lands between the
-		// write and the reset is lost; with a delay of 0 the handler spins and this happens all the time
-		// (side observation in the C10 report). 1 s also delays increaseNumCheckpoints by 1 s per request.
-		cfg.SnapshotDBType = "LvlDB"
-		cfg.SnapshotBatchSecs = 1
+		// "LvlDBSerial" is the persister type of [TrieSnapshotDB] in the shipped config.toml. (The plain
+		// "LvlDB" type loses writes: leveldb.DB.Put adds to the batch outside the lock under which
+		// batchTimeoutHandle writes and resets the batch - found with this harness, see the C10 report and
+		// notes/fixes/C10-leveldb-put-lost-during-batch-flush.patch; no shipped configuration uses it.)
+		cfg.SnapshotDBType = "LvlDBSerial"
+		cfg.SnapshotBatchSecs = verifC10LevelDBDelay
 		cfg.SnapshotPath = snapshotDir()
 		c.Class("leveldb-snapshots")
 	}
@@ -123,17 +126,22 @@ func verifC10Run(rt *rapid.T, c *kit.Case, snapshotDir func() string) {
 
 	explicitRequests := uint32(0)
 	base := fx.Adb.GetNumCheckpoints()
-	forcedSeen := uint32(0) // checkpoints forced by Commit (holder full), detected through the counter
-	lastSnapshotSeq := -1   // root of the last snapshot
+	forcedSeen := uint32(0)                   // checkpoints forced by Commit (holder full), detected through the counter
+	lastSnapshotSeq := -1                     // root of the last snapshot
 	var lastSnapshotDB data.SnapshotDbHandler // the newest snapshot database
 	ckptHashes := map[string]struct{}{}       // node hashes of every root checkpointed so far
 	staleCkptHashes := map[string]struct{}{}  // ... of those checkpointed before the newest database was opened
 	noteForced := func() {
 		// called when the system is quiet: the counter tells whether some Commit since the last call forced a
 		// checkpoint; which root it was is not observable, so every known root counts (upper bound)
-		if n := fx.Adb.GetNumCheckpoints() - base - explicitRequests; n > forcedSeen {
+		// With a small holder every Commit may have forced one - the counter is only used for the statistics,
+		// because it moves late when the snapshot databases have a batch delay.
+		n := fx.Adb.GetNumCheckpoints() - base - explicitRequests
+		if n > forcedSeen {
 			forcedSeen = n
 			c.Class("checkpoint-forced-by-commit")
+		}
+		if smallHolder || n > 0 {
 			for _, r := range s.known {
 				for h := range r.hashes {
 					ckptHashes[h] = struct{}{}
